@@ -48,24 +48,57 @@ def module_plan(prop, quick, thorough, rule, extra_run=None, assumptions=()):
                        rule=rule, assumptions=list(assumptions))
 
 
-module_plan('C01', 250, 5000,
+def _c01_extra(tier, seed, out, drv):
+    import s_clean
+    s_clean.clean_suite(seed, 2000 if tier == 'quick' else 50000, out, drv)
+
+
+module_plan('C01', 600, 12000,
             "random decorated modules, doc-heavy profile (85% of items documented, hazard line alphabet, block indentation by "
-            "spaces/tabs, leaderless blocks); non-trivial = at least one doccomment with a non-blank body line; distinct by case key")
-module_plan('C02', 300, 8000,
+            "spaces/tabs, leaderless blocks); non-trivial = at least one doccomment with a non-blank body line; distinct by case key; "
+            "plus clean_doc_lines itself on canonical / near-canonical / arbitrary line lists", extra_run=_c01_extra)
+module_plan('C02', 800, 20000,
             "random decorated modules, structure-heavy profile (nesting <= 4, dangling doccomments, generic commands, blocks, 15% "
             "malformed stream); non-trivial = >=3 undocumented and >=1 documented command")
-module_plan('C03', 300, 8000,
+module_plan('C03', 800, 20000,
             "random decorated modules, kwargs profile (definitions, cmake_parse_arguments at all placements, random trigger strings "
             "and strip patterns incl. ones matching the name); non-trivial = a definition plus a cmake_parse_arguments call or trigger hit")
-module_plan('C08', 300, 6000,
-            "random decorated modules x random subsets of the ten include_undocumented_* flags; non-trivial = some flag off and >=2 commands")
-module_plan('C09', 300, 8000,
+def _c08_exhaustive(tier, seed, out, drv):
+    """all 2^10 combinations of the include flags on a fixed family of modules that contain every kind documented and undocumented"""
+    import itertools
+    fam = []
+    n = 0
+    while len(fam) < (1 if tier == 'quick' else 12):
+        g = random.Random(f"C08/family/{n}"); n += 1
+        gen = GM.Gen(g, lg=random.Random(f"C08/family/{n}/l"), layout=1, p_doc=0.5, max_depth=3, max_items=7,
+                     weights={'class': 3, 'member': 2.5, 'attr': 2.5, 'ctor': 2, 'cttest': 2, 'section': 2, 'add_test': 1.5, 'option': 1.5, 'dangling': 0.2})
+        m = gen.module(moddoc=False)
+        ks = suites.kinds_of(m)
+        if GM.well_formed(m)[0] and sum(1 for k in ('function', 'macro', 'cpp_class', 'cpp_attr', 'cpp_member', 'ct_add_test', 'option', 'add_test') if ks[k]) >= 6:
+            fam.append(m)
+    with impl.Sandbox() as sb:
+        for fi, m in enumerate(fam):
+            cases = []
+            for bits in itertools.product([True, False], repeat=len(GM.FLAGS)):
+                cfg = {'incl': dict(zip(GM.FLAGS, bits)), 'trigger': ':param **kwargs:', 'regex': {'fn': '', 'macro': '', 'member': ''}}
+                cases.append((('C08', 'exh', fi, ''.join('1' if b else '0' for b in bits)), m, cfg))
+            for i in range(0, len(cases), 256):
+                suites.run_cases('C08', cases[i:i + 256], out, drv, sb, 'exhaustive-flags')
+    out.exhaustive = True
+    out.suites.append(dict(name='exhaustive-flags', modules=len(fam), combinations_each=1024))
+
+
+module_plan('C08', 800, 20000,
+            "random decorated modules x random subsets of the ten include_undocumented_* flags, plus ALL 2^10 flag combinations on a fixed "
+            "family of modules containing every kind documented and undocumented (quick: 1 module, thorough: 12); non-trivial = some flag off "
+            "and >=2 commands", extra_run=_c08_exhaustive)
+module_plan('C09', 700, 20000,
             "random decorated modules, class-heavy profile (sibling/nested classes, members/ctors/attrs, function or macro "
             "implementations with bodies, member strip patterns); non-trivial = a class with at least one member/attr/ctor")
-module_plan('C10', 400, 8000,
+module_plan('C10', 1000, 20000,
             "random decorated modules, set/option profile (0..5 values in all argument forms, options with/without default); "
             "non-trivial = at least one set/option")
-module_plan('C11', 400, 8000,
+module_plan('C11', 1000, 20000,
             "random decorated modules, test profile (NAME at every position, look-alike keywords, equal-to-name arguments, nested "
             "sections); non-trivial = at least one test command")
 
